@@ -200,12 +200,22 @@ Proof.
   repeat split; try assumption. apply (Forall_aset Z.eqb props_ok); [exact F|]. apply adel_nodup, props_of_ok, F.
 Qed.
 
+Lemma reach_delete_edges es : forall s, reach s -> reach (fst (delete_edges s es)).
+Proof.
+  induction es as [|e r IH]; intros s R; [exact R|]. cbn [delete_edges].
+  pose proof (reach_delete_edge s e R) as R1. destruct (st_delete_edge s e) as [s1 b]. cbn [fst] in R1.
+  specialize (IH s1 R1). destruct (delete_edges s1 r) as [s2 rs]. exact IH.
+Qed.
+
 Lemma reach_op s t o : reach s -> reach (fst (fst (fst (op_effect s t o)))).
 Proof.
   intros R. destruct o; cbn [op_effect].
   - pose proof (reach_create_node s labels (s_epoch s) R) as H. destruct (st_create_node s labels (s_epoch s)). exact H.
   - pose proof (reach_create_node s labels (s_epoch s) R) as H. destruct (st_create_node s labels (s_epoch s)) as [s1 id]. cbn [fst] in *. apply reach_set_props_node, H.
-  - pose proof (reach_delete_node s id R) as H. destruct (st_delete_node s id). exact H.
+  - assert (R0 : reach (fst (if node_visible s id then delete_edges s (incident_edges s id) else (s, [])))).
+    { destruct (node_visible s id); [apply reach_delete_edges, R|exact R]. }
+    destruct (if node_visible s id then delete_edges s (incident_edges s id) else (s, [])) as [s0 ers]. cbn [fst] in R0.
+    pose proof (reach_delete_node s0 id R0) as H. destruct (st_delete_node s0 id). exact H.
   - apply reach_set_node_prop, R.
   - pose proof (reach_add_label s id l R) as H. destruct (st_add_label s id l). exact H.
   - pose proof (reach_remove_label s id l R) as H. destruct (st_remove_label s id l). exact H.
